@@ -46,12 +46,26 @@ def split_boundary(rng, m):
 
 
 def poisson_patch(ctx, rng, kind, ename, deg, perdir):
-    from skfem import Basis, FacetBasis, BilinearForm, LinearForm, solve, condense
+    from skfem import Basis, FacetBasis, BilinearForm, LinearForm, solve, condense, enforce
     from skfem import element as E
     from skfem.models.poisson import laplace, mass
     general = False
-    if kind in ("quad",) and deg == 1 and rng.random() < 0.5:
-        # degree-one solutions also on general convex quadrilaterals
+    if kind in ("quad", "hex") and deg == 1 and rng.random() < 0.5:
+        # degree-one solutions also on general convex quadrilaterals / hexahedra: every vertex (those on the
+        # boundary too: boundary faces of hexahedra become non-planar) is moved by less than 1/4 of the
+        # smallest edge of the tensor mesh it comes from
+        while True:
+            m, info = meshes.gen_first_order(rng, kind, holes=(rng.random() < 0.2), reorder=False)
+            if info.get("gen") == "tensor":
+                break
+        p = m.p.copy()
+        for v in range(p.shape[1]):
+            p[:, v] += np.array([rng.randint(-2, 2) for _ in range(p.shape[0])]) / 64
+        m = type(m)(p, m.t)
+        info = dict(info, gen="tensor-jiggled-all")
+        general = True
+        sol_deg, sol_perdir = 1, False
+    elif kind in ("quad",) and deg == 1 and rng.random() < 0.3:
         while True:
             m, info = meshes.gen_first_order(rng, kind)
             if info.get("gen") == "tensor-jiggled":
@@ -81,27 +95,36 @@ def poisson_patch(ctx, rng, kind, ename, deg, perdir):
     basis = Basis(m, e, intorder=order)
     A = laplace.assemble(basis) + c * mass.assemble(basis)
     b = LinearForm(lambda v, w: ff(w.x) * v).assemble(basis)
-    Dfac, Nfac = split_boundary(rng, m)
-    descr["dirichlet_facets"], descr["neumann_facets"] = Dfac, Nfac
-    if Nfac:
-        fbn = FacetBasis(m, e, facets=np.array(Nfac, dtype=np.int32), intorder=order)
-        b = b + LinearForm(lambda v, w: sum(gf[i](w.x) * w.n[i] for i in range(dim)) * v).assemble(fbn)
-    fbd = FacetBasis(m, e, facets=np.array(Dfac, dtype=np.int32), intorder=order)
-    dofs = basis.get_dofs(facets=np.array(Dfac, dtype=np.int32))
-    x = np.zeros(basis.N)
-    proj = fbd.project(lambda xx: uf(xx))
-    x[dofs.flatten()] = proj[dofs.flatten()]
-    sol = solve(*condense(A, b, x=x, D=dofs))
+    b0 = b
     xstar = lagrange_coeffs(basis, uf)
-    err = float(np.abs(sol - xstar).max())
     sc = max(1.0, float(np.abs(xstar).max()))
-    ctx.count("patch:" + descr["problem"])
-    ctx.count("patch-element:" + ename)
-    if general:
-        ctx.count("patch:general-quadrilateral")
-    if err > 1e-10 * sc:
-        return ("patch test: solution in the finite element space is not reproduced", dict(descr, error=err),
-                {"what": "patch", "element": ename, "problem": descr["problem"]})
+    # several splits of the boundary with ONE assembled system, constrained by condense or by enforce
+    for rep in range(3):
+        Dfac, Nfac = split_boundary(rng, m)
+        how = rng.choice(["condense", "condense", "enforce"])
+        descr = dict(descr, dirichlet_facets=Dfac, neumann_facets=Nfac, constrained_by=how, split_number=rep)
+        b = b0
+        if Nfac:
+            fbn = FacetBasis(m, e, facets=np.array(Nfac, dtype=np.int32), intorder=order)
+            b = b0 + LinearForm(lambda v, w: sum(gf[i](w.x) * w.n[i] for i in range(dim)) * v).assemble(fbn)
+        fbd = FacetBasis(m, e, facets=np.array(Dfac, dtype=np.int32), intorder=order)
+        dofs = basis.get_dofs(facets=np.array(Dfac, dtype=np.int32))
+        x = np.zeros(basis.N)
+        proj = fbd.project(lambda xx: uf(xx))
+        x[dofs.flatten()] = proj[dofs.flatten()]
+        if how == "condense":
+            sol = solve(*condense(A, b, x=x, D=dofs))
+        else:
+            sol = solve(*enforce(A, b, x=x, D=dofs))
+        err = float(np.abs(sol - xstar).max())
+        ctx.count("patch:" + descr["problem"])
+        ctx.count("patch-constrained-by:" + how)
+        ctx.count("patch-element:" + ename)
+        if general:
+            ctx.count("patch:general-" + ("quadrilateral" if kind == "quad" else "hexahedron"))
+        if err > 1e-10 * sc:
+            return ("patch test: solution in the finite element space is not reproduced", dict(descr, error=err),
+                    {"what": "patch", "element": ename, "problem": descr["problem"]})
     return False
 
 
